@@ -1,4 +1,5 @@
 import SvModel.Core.Pp
+import SvModel.Lemmas.Walker
 /-!
 # C05 — macro usages: misuse is reported by name, omitted arguments take their default (decision logic)
 
@@ -164,5 +165,54 @@ theorem C05_define_without_body (C : Cfg) (fuel : Nat) (inp : Input) (s path : B
     have : df = def_ := (Option.some.inj (Option.some.inj heq)).symm
     subst this
     first | rfl | simp only [hf, hb, bindArgs, bindArgsFrom, List.isEmpty_nil, Bool.not_true, Bool.false_and, Bool.false_eq_true, if_false]
+
+
+/-- **a macro usage is resolved with the table in force at the point of use**, its expansion is pushed with the origin the resolver
+    returns, the table the expansion leaves behind becomes the current one, and an error of the resolver is the error of the run -/
+theorem C05_usage_arm (C : Cfg) (recI) (recU) (inp : Input) (s path : Bytes) (ii sc : Bool) (rd id : Nat) (w : WState) (x : Tree) :
+    (∀ e, recU inp s path x w.defines ii sc (rd + 1) id = .error e → armUsage C recI recU inp s path ii sc rd id w x = .error e) ∧
+    (∀ w', armUsage C recI recU inp s path ii sc rd id w x = .ok w' →
+      (recU inp s path x w.defines ii sc (rd + 1) id = .ok none ∧ w'.defines = w.defines) ∨
+      (∃ t org nd, recU inp s path x w.defines ii sc (rd + 1) id = .ok (some (t, org, nd)) ∧ w'.defines = nd)) := by
+  have hd : (w.skipPush x).defines = w.defines := skipPush_defines w x
+  constructor
+  · intro e he
+    unfold armUsage; dsimp only; rw [hd, he]
+  · intro w' h
+    unfold armUsage at h; dsimp only at h; rw [hd] at h
+    split at h
+    · cases h
+    · rename_i r hr
+      injection h with h; subst h
+      cases r with
+      | none => left; exact ⟨hr, by simp [foldl_pushLoc_defines, hd]⟩
+      | some v => obtain ⟨t, org, nd⟩ := v; right; exact ⟨t, org, nd, hr, by simp [foldl_pushLoc_defines]⟩
+
+
+/-- **nested usages are expanded with the table current at the point of use**: the text a usage contributes is the output of
+    `preprocess_str` run on the substituted body with exactly the table the usage was resolved in (same path, flags and depth counters),
+    and the table that run returns is handed back -/
+theorem C05_expansion_rescanned (C : Cfg) (n : Nat) (inp : Input) (s path : Bytes) (x : Tree) (d : Defines) (ii sc : Bool) (rd id : Nat)
+    (t : Bytes) (org : Option (Bytes × Range)) (nd : Defines)
+    (h : resolveUsage C (n + 1) inp s path x d ii sc rd id = .ok (some (t, org, nd))) :
+    ∃ body out, preprocessStr C n body path d ii sc rd id = .ok (out, nd) ∧ t = out.text := by
+  simp only [resolveUsage] at h
+  split at h
+  · cases h
+  · split at h
+    · cases h
+    · cases h
+    · split at h
+      · cases h
+      · split at h
+        · cases h
+        · split at h
+          · cases h
+          · split at h
+            · cases h
+            · rename_i out nd' hpp
+              injection h with h; injection h with h; injection h with h1 h2; injection h2 with h2 h3
+              subst h1 h3
+              exact ⟨_, out, hpp, rfl⟩
 
 end Sv
